@@ -23,6 +23,7 @@ type UnitResult struct {
 	Paths       int
 	World       *World
 	Vacuity     string // "" ok, else reason
+	VacuityUnknown bool
 	Canary      bool
 	Trusted     bool
 	Seconds     float64
@@ -309,6 +310,8 @@ func (e *Engine) solveUnit(w *World, res *UnitResult, workdir string, timeoutS i
 			case "unsat":
 				o.Status = "sat"
 				res.Vacuity = "precondition of " + res.Key + " is unsatisfiable"
+			default:
+				res.VacuityUnknown = true
 			}
 		}
 	}
